@@ -226,6 +226,11 @@ class Application(object):
 
             ctx.out_error = e
 
+            # what the function had prepared for its answer is not the answer
+            # to a call that failed.
+            ctx.out_document = None
+            ctx.out_string = None
+
             ctx.fire_event('method_exception_object')
 
         # we don't catch BaseException because we actually don't want to catch
@@ -235,6 +240,9 @@ class Application(object):
             logger_server.critical(e, **{'exc_info': 1})
 
             ctx.out_error = Fault('Server', get_fault_string_from_exception(e))
+
+            ctx.out_document = None
+            ctx.out_string = None
 
             ctx.fire_event('method_exception_object')
 
